@@ -13,6 +13,8 @@ import (
 	"verif/internal/h"
 
 	"github.com/relab/gorums"
+	"google.golang.org/grpc/codes"
+	"google.golang.org/grpc/status"
 )
 
 // XCase is one point of the C08 grid.
@@ -26,6 +28,9 @@ type XCase struct {
 	Deadline  bool   `json:"deadline"`
 	Buffer    uint   `json:"send_buffer"`
 	CtxKind   string `json:"ctx_kind,omitempty"` // "" = harness-ended context | with-cause = context.WithCancelCause / WithTimeoutCause
+	// OthersFail: the handlers of all other nodes fail at once with an application error, so that the call has node errors of
+	// its own when the context's end fails the misbehaving node
+	OthersFail bool `json:"other_nodes_fail,omitempty"`
 }
 
 // endCtx is a context the harness can end.
@@ -72,7 +77,7 @@ var (
 func RunCtxEnd(e *Env) {
 	R := e.R
 	R.Rule = "grid (seeded sample in quick): call kind (21 methods, one-way with and without send-waiting) x behaviour of the targeted node (handler never answers / holds its connection, proxy stalled = peer not reading, connections refused, reconnect into a tarpit, slow) " +
-		"(plus: server streams that never end, feeding a quorum function that costs 0.5 ms per reply) x context kind (ended by the harness; context.WithCancelCause / WithTimeoutCause carrying a cause that differs from Err) x concurrent traffic on the same node (none, a background call with context.Background() stuck on it, 8 goroutines) x instant of the context end placed with hooks (before the call, while queued at enq.registered, while being written at snd.beforeWrite, while a write is blocked by flow control, while awaiting replies) x cancel/deadline; " +
+		"(plus: server streams that never end, feeding a quorum function that costs 0.5 ms per reply) x {other nodes answer normally, other nodes' handlers fail by themselves} x context kind (ended by the harness; context.WithCancelCause / WithTimeoutCause carrying a cause that differs from Err) x concurrent traffic on the same node (none, a background call with context.Background() stuck on it, 8 goroutines) x instant of the context end placed with hooks (before the call, while queued at enq.registered, while being written at snd.beforeWrite, while a write is blocked by flow control, while awaiting replies) x cancel/deadline; " +
 		"oracle: hang rule (W, two goroutine dumps) from the logged instant of the context end; where the call reports an error, errors.Is(err, ctx.Err()) unless the node itself legitimately failed the call; distinct = grid point"
 	R.Assume("a node error (e.g. 'stream is down' for a refused connection) that is available when the context ends is a legitimate outcome; only errors that exist because of the context's end must match it")
 	rng := e.Rand(8)
@@ -87,7 +92,18 @@ func RunCtxEnd(e *Env) {
 		if rng.Intn(4) == 0 {
 			c.CtxKind = "with-cause"
 		}
+		c.OthersFail = c.N >= 2 && rng.Intn(6) == 0
 		cases = append(cases, c)
+	}
+	// node errors of both origins in one call: the other nodes' handlers fail by themselves, the misbehaving node's request is
+	// failed by the context's end (its write is blocked by flow control, or it waits for a busy sender)
+	for rep := 0; rep < e.Pick(3, 20); rep++ {
+		for _, m := range []string{"QC", "QCPN", "Async", "AsyncCombo", "Corr", "CorrPN"} {
+			cases = append(cases, XCase{Method: m, N: 2 + rep%2, Behaviour: "stalled", Instant: "write-blocked", Traffic: "none", Deadline: rep%2 == 0, OthersFail: true})
+			cases = append(cases, XCase{Method: m, N: 2 + rep%2, Behaviour: "stalled", Instant: "while-queued", Traffic: "stuck-background-call", Deadline: rep%2 == 1, OthersFail: true})
+			cases = append(cases, XCase{Method: m, N: 2, Behaviour: "never-answers", Instant: "while-queued", Traffic: "none", Deadline: rep%2 == 1, OthersFail: true})
+			cases = append(cases, XCase{Method: m, N: 2, Behaviour: "slow", Instant: "while-queued", Traffic: "none", Deadline: rep%2 == 0, OthersFail: true})
+		}
 	}
 	// contexts that carry a cancellation cause, for every call class
 	for _, m := range []string{"RPC", "QC", "Async", "Corr", "CorrStream", "Uni", "Multi"} {
@@ -188,7 +204,11 @@ func runCtxEndCase(e *Env, idx int, c XCase) (hangSig string) {
 	open := func() { ronce.Do(func() { close(release) }) }
 	defer open()
 	var entered, streamed atomic.Int64
-	bad := 0 // index of the misbehaving node
+	var underTest atomic.Uint64 // token of the call under test
+	bad := 0                    // index of the misbehaving node
+	if c.OthersFail {
+		bad = c.N - 1 // contacted last: the other nodes have failed by the time the call gets to it
+	}
 	cl.SetBehaviour(func(hc *h.HCall) (*puppet.Rep, error) {
 		entered.Add(1)
 		if c.Behaviour == "streams-forever" {
@@ -216,6 +236,9 @@ func runCtxEndCase(e *Env, idx int, c XCase) (hangSig string) {
 					time.Sleep(200 * time.Microsecond)
 				}
 			}
+		}
+		if c.OthersFail && hc.S.Index != bad && hc.Req.GetCall() == underTest.Load() {
+			return nil, status.Error(codes.FailedPrecondition, "scripted application error")
 		}
 		if hc.S.Index == bad || c.Behaviour == "never-answers" || c.Behaviour == "holds-connection" {
 			switch c.Behaviour {
@@ -332,6 +355,7 @@ func runCtxEndCase(e *Env, idx int, c XCase) (hangSig string) {
 		}
 	}
 	tok := h.NewToken()
+	underTest.Store(tok)
 	req := &puppet.Req{Call: tok, Seq: tok, Kind: 8, Pad: make([]byte, pad)}
 	mon := &h.CallMon{Token: tok, Orig: req, Decide: func(inv *h.Inv) (bool, int) {
 		if c.Behaviour == "streams-forever" {
@@ -394,6 +418,9 @@ func runCtxEndCase(e *Env, idx int, c XCase) (hangSig string) {
 			case <-time.After(300 * time.Millisecond):
 				reached = "hook not reached (call parked elsewhere)"
 			}
+		}
+		if c.OthersFail {
+			time.Sleep(5 * time.Millisecond) // the other nodes' failures arrive
 		}
 		ctx.end(ctxErr)
 		ended.Store(true)
